@@ -101,10 +101,12 @@ def check_trim(db, chk, rule: str) -> None:
             RK = T.P("RANK")
             I = Interp(db, decide=lambda c, _a=assume(("hascol", TR, "stream")): (_a(c) if _a(c) is not None else (False if (isinstance(c, tuple) and c and c[0] == "cmp" and c[1] in ("<", "<=") and "len(" in T.show(c)) else
                                                                                                      True if (isinstance(c, tuple) and c and c[0] == "cmp" and c[1] in (">", ">=") and "len(" in T.show(c)) else None)))
-            so = self_obj()
-            so.attrs["traces"] = {RK: Frame(TR)}
+            def fresh_self():          # (one object per explored path: the method stores its result in it)
+                so = self_obj()
+                so.attrs["traces"] = {RK: Frame(TR)}
+                return so
             incp = next((p_ for p_ in H.param_names(f2) if "include" in p_ or "last" in p_), None)
-            wr = [r for r in I.explore(ref2, lambda I: {"self": so, **({incp: inc} if incp else {})}) if r.raised is None]
+            wr = [r for r in I.explore(ref2, lambda I: {"self": fresh_self(), **({incp: inc} if incp else {})}) if r.raised is None]
             outs = []
             for r in wr:
                 tr_ = r.env["self"].attrs.get("traces") if isinstance(r.env.get("self"), Obj) else None
@@ -308,7 +310,38 @@ def check_step_set(db, chk, rule: str) -> None:
                 cand = {(H.name_id(b_.get(x)) or x) if x in inner_params else x for x in cand}
     defs = [(t, v) for t, v, s_ in H.assignments(f, nested=False) if H.name_id(t) in cand]
     if len(defs) != 1:
-        chk.ob(rule, "the step-id set of the trim has one definition", None, where, found={"candidates": sorted(cand), "definitions": len(defs)})
+        # the set is not a local of the method (e.g. handed to a filter object): decided on the evaluated method instead - the name set the trimmed frame
+        # of one rank was selected by, as a term over the symbol table
+        st = db.mod("hta.common.trace_symbol_table")
+        TR, RK = ("param", "TR"), T.P("RANK")
+        _a = assume(("hascol", TR, "stream"))
+        dec = lambda c: (_a(c) if _a(c) is not None else (False if (isinstance(c, tuple) and c and c[0] == "cmp" and c[1] in ("<", "<=") and "len(" in T.show(c)) else
+                                                           True if (isinstance(c, tuple) and c and c[0] == "cmp" and c[1] in (">", ">=") and "len(" in T.show(c)) else None))
+
+        def fresh():
+            so = Obj("self", cls=(m, "Trace"), attrs={"symbol_table": Obj("symtab", cls=(st, "TraceSymbolTable"))})
+            so.attrs["traces"] = {RK: Frame(TR)}
+            return so
+        sets = set()
+        try:
+            for r in Interp(db, decide=dec).explore(f"{TM}:Trace._filter_irrelevant_gpu_kernels", lambda I: {"self": fresh()}):
+                tr_ = r.env["self"].attrs.get("traces") if r.raised is None and isinstance(r.env.get("self"), Obj) else None
+                fr_ = tr_.get(RK) if isinstance(tr_, dict) else None
+                if isinstance(fr_, Frame) and isinstance(fr_.base, tuple) and fr_.base and fr_.base[0] == "concat":
+                    sets |= {x[2] for x in T.subterms(fr_.base) if isinstance(x, tuple) and len(x) == 3 and x[0] == "in" and x[1] == T.col(TR, "name") and "ProfilerStep" in T.show(x[2])}
+        except AnalysisError:
+            sets = set()
+        verdict = None
+        if len(sets) == 1:
+            S = next(iter(sets))
+            S = S[1] if isinstance(S, tuple) and len(S) == 2 and S[0] in ("list", "set") else S
+            if isinstance(S, tuple) and len(S) == 5 and S[0] == "comp" and isinstance(S[3], tuple) and S[3] and "items" in T.show(S[3]) and S[2] == ("item", ("elem", S[3]), 1):
+                key = ("item", ("elem", S[3]), 0)
+                if S[4] == ("in", T.C("ProfilerStep"), key) or (isinstance(S[4], tuple) and S[4] and S[4][0] == "strmatch" and S[4][1] == "startswith" and S[4][2] == key and S[4][3] == T.C("ProfilerStep")):
+                    verdict = True
+        chk.ob(rule, "the trim's step-name set = the names add_iteration numbers (every symbol starting with / containing 'ProfilerStep')", verdict, where,
+               found=[T.show(x)[:200] for x in sets] or {"candidates": sorted(cand), "definitions": len(defs)}, accepted="[v for k, v in sym_index.items() if 'ProfilerStep' in k]",
+               why="a narrower set makes the trim blind to steps the iteration column knows: with 'ProfilerStep #N' annotations nothing is trimmed although iterations are assigned")
         return
     v = H.expand(f, defs[0][1])
     verdict, det = None, " ".join(ast.unparse(v).split())[:140]
